@@ -31,6 +31,9 @@ def run(ctx):
         i = rng.randint(0, len(a))
         ch = rng.choice('_:!/ é²٢')
         odd.append((a[:i] + ch + a[i:], b if rng.random() < .5 else b[:i] + ch + b[i:]))
+    # digit runs beyond CPython's 4300-digit limit for int(str): the comparison itself has no such limit
+    big = ['0' * 4301 + '7', '9' * 4301, '7', 'a' + '5' * 4301 + 'b']
+    cpairs += [(a, b) for a in big for b in big]
     allc = matrix + spairs + cpairs
     bad = ctx.compare('corr:compare_strings', [('compare_strings', [a, b]) for a, b in allc + odd], impl)
 
